@@ -83,8 +83,9 @@ func NewClientDnsConnection(topDomain string, communicator ClientCommunicator) (
 
 // Close will close the underlying stream. If the Close has already been called, it will do nothing
 func (dc *ClientDnsConnection) Close() error {
-	if !dc.Closed() && dc.Serializer.Upstream.QueryType != nil {
-		// Notify the server to do a clean shutdown, if handshake was complete
+	if !dc.Closed() && dc.Serializer.Upstream.QueryType != nil && dc.Serializer.Upstream.Encoder != nil {
+		// Notify the server to do a clean shutdown, if handshake was complete (a handshake that failed after the
+		// query type was found but before a codec was chosen leaves nothing to say, and nothing to say it with)
 		var err error
 		// Acknowledge last received chunk
 		err = dc.SendAndReceive(nil)
